@@ -100,6 +100,9 @@ def generate(prop, rng):
                         t[nm] = ci
             edits.append({"op": "linkpair", "a": "hp1", "b": "hp2"})
         cfg.update(l0=l0, l1=l1, with_state=rng.random() < 0.7, single_file=rng.random() < 0.15)
+        if rng.random() < 0.12:
+            # one workspace file cannot be removed while the forced checkout runs (immutable / busy)
+            cfg["ws_rm_fault"] = {"nth": rng.randint(1, 3), "exc": rng.choice(["EACCES", "EIO"])}
         sc.update(prior=prior, target=target, edits=edits, kind="c10")
         return sc
     kind = gen.weighted(rng, [(5, "checkout"), (5, "links")])
@@ -601,13 +604,25 @@ def _exec_c10(sc, ctx, env):
     disc = f"{cfg['l0']}->{cfg['l1']}"
     n_before = nsaved[0]
     ev_first = len(seam.events)
+    rmf = cfg.get("ws_rm_fault")
+    if rmf:
+        seam.faults = [{"at": ("unlink", "remove", "rmtree"), "match": "ws/", "sub": True, "nth": rmf["nth"], "exc": rmf["exc"],
+                        "name": "ws_remove", "count": 1, "sticky": True}]
     try:
         checkout(path, env.w.localfs, obj_for(sc["target"]), env.odb, force=True, state=env.state)
     except Exception as exc:  # noqa: BLE001
         import traceback
 
+        seam.faults = []
+        if seam.fired.get("ws_remove"):
+            # giving up is fine; the scenario ends here (what a later, fault-free call must achieve
+            # is judged in the runs where this call returned)
+            ctx.probe("forced_checkout_gave_up_after_failed_removal")
+            ctx.nontrivial = True
+            return
         ctx.violate("forced-checkout-raised", f"{type(exc).__name__}:{disc}", f"{exc!r}\n{traceback.format_exc()[-600:]}")
         return
+    seam.faults = []
     got = model.files_of(model.snapshot(path))
     if got != want:
         ctx.violate(
